@@ -757,6 +757,7 @@ class Fxp():
             # (rounded exactly by the configured rule; int() dropped the fraction toward zero whatever the rule)
             val = self._round(Fraction(val) * Fraction(2)**self.n_frac, method=self.config.rounding)
             raw = True
+            vdtype = int              # (the code is an integer on its way to the store: a cast to float would round it to 53 bits)
 
         else:
             raise ValueError('Not supported input type: {}'.format(type(val)))
